@@ -18,6 +18,7 @@ import (
 	"crypto/rand"
 	"encoding/json"
 	"fmt"
+	"io"
 	"os"
 	"sort"
 	"strings"
@@ -48,7 +49,7 @@ type c08Version struct {
 type c08Probe struct {
 	T      uint64 `json:"t"`               // edit time of the commit
 	Signer int    `json:"s"`               // -1 nobody, 0..2 pool key, 3 the stranger's key
-	Alter  int    `json:"alter,omitempty"` // 0 no, 1 operations swapped after signing, 2 edit clock changed after signing
+	Alter  int    `json:"alter,omitempty"` // 0 no, 1 operations swapped after signing, 2 edit clock changed after signing, 3..6 the raw bytes of the signed commit changed (c08AlterRaw)
 	Warm   int    `json:"warm,omitempty"`  // k+1: before this probe is read, a commit carrying the SAME operations and genuinely signed by pool key k is read in the same process
 	Unsort bool   `json:"unsorted,omitempty"` // the commit's tree object lists "ops" before the clock entries (written as raw bytes: git-bug's own writer sorts)
 	Empty  int    `json:"empty,omitempty"` // 1, 2: the probe is a commit WITHOUT operations ("ops": [] / null) by the author, at time t+1, on top of a root commit (time t) by an author without keys
@@ -228,6 +229,8 @@ func c08ProbesFor(vs []c08Version) []c08Probe {
 			s = ks[0]
 		}
 		res = append(res, c08Probe{T: t, Signer: s, Alter: 1}, c08Probe{T: t, Signer: s, Alter: 2})
+		// genuinely signed, then the bytes of the commit object changed in places a lenient parser skips
+		res = append(res, c08Probe{T: t, Signer: s, Alter: 3 + int(t+uint64(len(vs)))%4})
 		// the same operations, first seen genuinely signed by the right key, then met again unsigned / signed by a stranger
 		res = append(res, c08Probe{T: t, Signer: -1, Warm: s + 1}, c08Probe{T: t, Signer: c08PoolSize, Warm: s + 1})
 		// the same commits with a tree that lists "ops" before the clocks: the verdict must not depend on the order
@@ -670,6 +673,14 @@ func c08CommitInner(repo repository.ClockedRepo, gr *git.Repository, author iden
 		h, err := repo.StoreSignedCommit(tree, signer)
 		return h, id, "", err
 	}
+	if p.Alter >= 3 {
+		sh, err := repo.StoreSignedCommit(tree, signer)
+		if err != nil {
+			return "", "", "", err
+		}
+		h, err := c08AlterRaw(gr, sh, p.Alter)
+		return h, id, "", err
+	}
 	// sign another tree, then make the commit point to this one while keeping the signature
 	var signedTree repository.Hash
 	switch p.Alter {
@@ -719,6 +730,71 @@ func c08CommitInner(repo repository.ClockedRepo, gr *git.Repository, author iden
 		warm = sh // same operations, genuinely signed (with the other edit time)
 	}
 	return repository.Hash(h.String()), id, warm, nil
+}
+
+// c08AlterRaw stores a copy of the signed commit h whose bytes differ in a place that go-git's decoder skips or
+// normalises: 3 an unknown header after the committer line, 4 an unknown header after the signature, 5 blanks at the
+// end of the committer line, 6 a second "tree" line in front of the real one (the tree C git would read). The
+// signature is kept byte for byte: it no longer covers the content of the object.
+func c08AlterRaw(gr *git.Repository, h repository.Hash, how int) (repository.Hash, error) {
+	obj, err := gr.Storer.EncodedObject(plumbing.CommitObject, plumbing.NewHash(string(h)))
+	if err != nil {
+		return "", err
+	}
+	rd, err := obj.Reader()
+	if err != nil {
+		return "", err
+	}
+	raw, err := io.ReadAll(rd)
+	_ = rd.Close()
+	if err != nil {
+		return "", err
+	}
+	text := string(raw)
+	ci := strings.Index(text, "\ncommitter ")
+	if ci < 0 || !strings.HasPrefix(text, "tree ") {
+		return "", fmt.Errorf("unexpected commit layout")
+	}
+	ce := ci + 1 + strings.Index(text[ci+1:], "\n") // the newline that ends the committer line
+	switch how {
+	case 3:
+		text = text[:ce+1] + "x-injected not covered by the signature\n" + text[ce+1:]
+	case 4:
+		end := strings.Index(text, "-----END PGP SIGNATURE-----")
+		if end < 0 {
+			return "", fmt.Errorf("no signature in the signed commit")
+		}
+		nl := end + strings.Index(text[end:], "\n")
+		// skip the continuation lines of the gpgsig header
+		for nl+1 < len(text) && text[nl+1] == ' ' {
+			nl = nl + 1 + strings.Index(text[nl+1:], "\n")
+		}
+		text = text[:nl+1] + "x-injected not covered by the signature\n" + text[nl+1:]
+	case 5:
+		text = text[:ce] + "  " + text[ce:]
+	default:
+		text = "tree 4b825dc642cb6eb9a060e54bf8d69288fbee4904\n" + text
+	}
+	no := gr.Storer.NewEncodedObject()
+	no.SetType(plumbing.CommitObject)
+	w, err := no.Writer()
+	if err != nil {
+		return "", err
+	}
+	if _, err := w.Write([]byte(text)); err != nil {
+		return "", err
+	}
+	if err := w.Close(); err != nil {
+		return "", err
+	}
+	nh, err := gr.Storer.SetEncodedObject(no)
+	if err != nil {
+		return "", err
+	}
+	if nh.String() == string(h) {
+		return "", fmt.Errorf("alteration left the commit unchanged")
+	}
+	return repository.Hash(nh.String()), nil
 }
 
 // c08Read: 0 returned the bug, 1 returned an error, 2 panicked
@@ -809,6 +885,8 @@ func c08Kind(vs []c08Version, p c08Probe) string {
 		who += "+ops-swapped"
 	} else if p.Alter == 2 {
 		who += "+clock-swapped"
+	} else if p.Alter >= 3 {
+		who += "+raw-bytes-altered"
 	}
 	return ctx + "/" + who
 }
@@ -826,7 +904,7 @@ func (c08Driver) Run(raw json.RawMessage) Case {
 		}
 	}
 	for _, p := range in.Probes {
-		if p.T == 0 || p.Signer < -1 || p.Signer > c08PoolSize || p.Alter < 0 || p.Alter > 2 || (p.Alter > 0 && p.Signer < 0) {
+		if p.T == 0 || p.Signer < -1 || p.Signer > c08PoolSize || p.Alter < 0 || p.Alter > 6 || (p.Alter > 0 && p.Signer < 0) {
 			return Case{Skip: "bad probe"}
 		}
 	}
